@@ -920,6 +920,26 @@ func (e *enc) aroundCall(fr *frame, c *ssa.Call, table map[string][]Clause, cls 
 	key := fr.callOrd[c]
 	for i, cl := range table[key] {
 		env := e.fnEnv(fr, e.mem)
+		// #i inside a range loop: the index of the current iteration (innermost loop around the call)
+		var inner *ssa.BasicBlock
+		for h := range fr.loopHead {
+			if body := fr.loopBlocks(h); body[c.Block()] {
+				if inner == nil || fr.loopBlocks(inner)[h] {
+					inner = h
+				}
+			}
+		}
+		if inner != nil {
+			pv := map[*ssa.Phi]Term{}
+			for _, in := range inner.Instrs {
+				if phi, ok := in.(*ssa.Phi); ok {
+					if t, ok := fr.val[phi]; ok {
+						pv[phi] = t
+					}
+				}
+			}
+			env.hash = e.loopEnv(fr, inner, pv, e.mem).hash
+		}
 		names := fr.curNames
 		env.locals = func(name string) (tval, bool) {
 			if v, ok := names[name]; ok {
